@@ -88,6 +88,33 @@ def dihAxisSq (_a b c _d : V3 α) : α := (c.sub b).normSq
 
 end Poly
 
+/-! ### Unit cell ↔ box vectors, algebraic core
+`vectors_from_unitcell` with the values of `cos α, cos β, cos γ, sin γ` and of the square root `c_z`
+supplied as numbers; `unitcell_from_vectors` before `sqrt` / `arccos` (squared lengths and the three
+dot products whose quotients by the lengths are the cosines). -/
+section Cell
+variable {α : Type} [Add α] [Sub α] [Mul α] [Div α] [OfNat α 0]
+
+def vectorsFromCell (la lb lc ca cb cg sg cz : α) : M3 α :=
+  ⟨⟨la, 0, 0⟩, ⟨lb * cg, lb * sg, 0⟩, ⟨lc * cb, lc * (ca - cb * cg) / sg, cz⟩⟩
+
+structure CellSq (α : Type) where
+  lenSqA : α
+  lenSqB : α
+  lenSqC : α
+  /-- `b·c = |b||c| cos α` -/
+  dotBC : α
+  /-- `a·c = |a||c| cos β` -/
+  dotAC : α
+  /-- `a·b = |a||b| cos γ` -/
+  dotAB : α
+  deriving DecidableEq, Repr
+
+def cellSqFromVectors (b : M3 α) : CellSq α :=
+  ⟨b.r0.dot b.r0, b.r1.dot b.r1, b.r2.dot b.r2, b.r1.dot b.r2, b.r0.dot b.r2, b.r0.dot b.r1⟩
+
+end Cell
+
 /-! ## Rational part -/
 
 abbrev Vec := V3 Rat
@@ -241,6 +268,24 @@ def centroid (xs : List Vec) : Option Vec :=
   let s := xs.foldl V3.add zeroV
   let n : Rat := (xs.length : Rat)
   some ⟨s.x / n, s.y / n, s.z / n⟩
+
+/-- exact square root of a non-negative rational that is a perfect square -/
+def ratSqrt? (q : Rat) : Option Rat :=
+  if q < 0 then none else
+  let n := q.num.toNat.sqrt
+  let d := q.den.sqrt
+  if n * n = q.num.toNat ∧ d * d = q.den then some ((n : Rat) / (d : Rat)) else none
+
+/-- `vectors_from_unitcell(a, b, c, 90°, 90°, 90°)`: `cos = 0` (after the clean-up of round-off), `sin γ = 1`, `c_z = c`. -/
+def vectorsFromCell90 (la lb lc : Rat) : Box := vectorsFromCell la lb lc 0 0 0 1 lc
+
+/-- `unitcell_from_vectors` where it is exact: the three lengths (if rational) and which of the three angles
+are right angles (`arccos 0`). -/
+def unitcellExact (b : Box) : Option (Rat × Rat × Rat × Bool × Bool × Bool) :=
+  let c := cellSqFromVectors b
+  match ratSqrt? c.lenSqA, ratSqrt? c.lenSqB, ratSqrt? c.lenSqC with
+  | some la, some lb, some lc => some (la, lb, lc, decide (c.dotBC = 0), decide (c.dotAC = 0), decide (c.dotAB = 0))
+  | _, _, _ => none
 
 /-! ## numpy shapes -/
 
